@@ -1,0 +1,19 @@
+//go:build verif
+
+package revocation
+
+import (
+	"github.com/privacybydesign/gabi/big"
+	"github.com/privacybydesign/gabi/gabikeys"
+)
+
+// Verification hooks (build tag "verif"): exported wrappers around unexported functions.
+
+func VerifNewWitness(sk *gabikeys.PrivateKey, acc *Accumulator, e *big.Int) (*Witness, error) {
+	return newWitness(sk, acc, e)
+}
+func (event *Event) VerifHash() Hash                { return event.hash() }
+func (event *Event) VerifHashBytes() []byte         { return event.hashBytes() }
+func (event *Event) VerifHashEquals(h Hash) error   { return event.hashEquals(h) }
+func (el *EventList) VerifVerified() bool           { return el.verified }
+func (update *Update) VerifProductCached() *big.Int { return update.product }
